@@ -342,6 +342,34 @@ def c09(run):
                        distinct_nontrivial=st.get("obs", 0) - st.get("keys", 0))
 
 
+def c16(run):
+    binary = vlib.build()
+    quick = run.tier == "quick"
+    cfg = gen_cfg(run.tier, run.seed, 3 if quick else 1, ["HintsEqual", "HintsSufficient", "EmitHint"])
+    scs = vlib.generate(run, "Hints", cfg, "hint", fam="C16", cap=(3000 if quick else 40000), timeout=3000)
+    log("Hints.tla: %s plans model-checked, %d scenarios emitted" % (run.cov["gen"][-1].get("enumerated"), len(scs)))
+    scs += all_scenarios(run, 200, 4000)
+    scs += vlib.gen_random(run, binary, "compose", 800 if quick else 15000, "C16")
+    chunks = max(1, min(vlib.NCPU // 2, len(scs) // 300))
+    traces = vlib.replay(run, binary, "hints", scs, "h", chunks=chunks)
+    st = session_validate(run, traces, lambda clause, fam: ["C16"] if clause == "Agree" else (["C13"] if clause == "ProcessDead" else []))
+    if st.get("obs", 0) == 0:
+        raise Infra("vacuous run")
+    return vlib.finish(run, "model_checking",
+                       rule=("Hints.tla derives the select hints twice - path based as the reference engine does, and top-down as the engine's "
+                             "plan construction does - and TLC checks for every plan wrap3(wrap2(wrap1(leaf))) over 9 leaves (offset, @ literal, "
+                             "start(), end(), range selectors) and 10 wrappers (function, aggregation by/without, unary minus, parentheses, "
+                             "either side of a binary operator, parameterised aggregation, function with scalar argument) that the tuples are "
+                             "equal and the hinted range covers every needed sample. The plans (and the general / random scenarios) are "
+                             "replayed: the set of selects recorded by the instrumented storage for the engine without optimizers must equal "
+                             "the reference engine's, and for the optimizer sets none/default/all the result with the storage pruned to the "
+                             "hinted ranges must equal the unpruned result (SessionTrace.tla validated by TLC). distinct_nontrivial = scenarios "
+                             "x (engine/reference + pruned/unpruned) observations beyond the first per key."),
+                       assumptions=["the querier's own [mint, maxt] is not part of the comparison (the reference opens one querier per query)",
+                                    "sets of selects, not multisets (the engine de-duplicates identical selects)"],
+                       distinct_nontrivial=st.get("obs", 0) - st.get("keys", 0))
+
+
 def c07(run):
     binary = vlib.build()
     mc_volcano(run)
@@ -365,4 +393,4 @@ def c07(run):
                        distinct_nontrivial=st.get("obs", 0) - st.get("keys", 0))
 
 
-RECIPES = {"C01": c01, "C07": c07, "C09": c09, "C18": c18, "C19": c19, "C02": c02, "C03": c03, "C04": c04, "C05": c05, "C06": c06}
+RECIPES = {"C01": c01, "C07": c07, "C09": c09, "C16": c16, "C18": c18, "C19": c19, "C02": c02, "C03": c03, "C04": c04, "C05": c05, "C06": c06}
